@@ -200,6 +200,7 @@ PROPS = {
     },
     'C18': {
         'units': ['parser', 'dec_macro'],
+        'thorough_extra': ['dec_grid'],
         'title': 'The Dec! macro and runtime parsing agree on every literal',
         'design_ref': 'DESIGN.md section 7 (C18)',
         'level_text': 'Verus proves that the body of the proc macro Dec (the real exponent-folding code between token-stream extraction and quote!) returns - for every source text - exactly the (coefficient, fractional digits) pair given by the same specification parse_decimal_spec against which Decimal::from_str is proved (unit parser), and panics (= compile error) exactly when that specification is None. Function-level proof; the quantifier over programs rests on the assumption below.',
